@@ -39,7 +39,7 @@ def tu_source(g, gid=None, dflt=(), limits=None, ctx=(), postprec=(), defines=()
             continue
         o.append('TN t%d(%s, vh::TermFN{%d});' % (i, ct, i) if i in nvterms else 'TT t%d(%s, vh::TermF{%d});' % (i, ct, i))
     ntid = {n: i for i, n in enumerate(g.nts)}
-    tid = {t: i for i, t in enumerate(g.ts)}
+    tid = {t: g.ts.index(t) for t in g.ts}      # (a name listed twice denotes its FIRST declaration)
     rl = []
     named = []
     for ri, (l, rhs, prec) in enumerate(g.rules):
@@ -78,7 +78,7 @@ def tla_json(g, gid=None, dflt=(), ctx=(), noval=(), nvterms=(), tkinds=None):
     """Same JSON shape as gram.HostGrammar.tla_json, for an exact (generated TU) grammar."""
     gid = gid or g.name
     ntid = {n: i for i, n in enumerate(g.nts)}
-    tid = {t: i for i, t in enumerate(g.ts)}
+    tid = {t: g.ts.index(t) for t in g.ts}      # (a name listed twice denotes its FIRST declaration)
     nnt, nt = len(g.nts), len(g.ts)
     names_nt = ['N%d' % i for i in range(nnt)] + ['##']
     tn = [('r_\\x%02x' % ord(t) if (tkinds or {}).get(i) == 'regex' and i not in nvterms else tname_of(t)) for i, t in enumerate(g.ts)] + ['<eof>', '<error_recovery_token>']      # (an unnamed regex term is named after its pattern)
@@ -173,7 +173,7 @@ def clex_tu(g, gid):
     """g: gram.Grammar whose terms are abstract (named by single characters); all terms are custom_terms, the lexer is
     vh::byte_lexer<number of terms>"""
     ntid = {n: i for i, n in enumerate(g.nts)}
-    tid = {t: i for i, t in enumerate(g.ts)}
+    tid = {t: g.ts.index(t) for t in g.ts}      # (a name listed twice denotes its FIRST declaration)
     o = ['#include "rt.hpp"', 'using namespace ctpg;', 'using vh::Node;', 'namespace G {']
     for i, n in enumerate(g.nts):
         o.append('nterm<Node> n%d("N%d");' % (i, i))
